@@ -64,15 +64,20 @@ carries `@action_method`: the outermost wrapper is the one whose `traceback.extr
 theorem every_directive_records_its_call_site :
     ∀ p ∈ directives.zip specDirectives, entriesOk p.1 p.2 = true := by decide +kernel
 
-/-- The `introspection` flag: the constructor stores it (default `True`), `Configurator.action` drops the
-introspectables when it is off before either use, `include` and `with_package` hand it to the configurator
-they create (F-C20b reverted gives `"absent"`), `execute_actions` registers the introspectables after the
-callable inside the per-action loop, and `Introspectable.register` adds before it relates. -/
+/-- The `introspection` flag and the registration step, as **probed on the running code** of the tree under test
+(extract/c20.py `PROBE`, a child interpreter; a behaviour-preserving rewrite changes nothing here, a probe that cannot
+run gives `probe-failed:…`): the constructor defaults to `True` and stores the argument; `Configurator.action`
+keeps the introspectables iff the flag is on (pending action and autocommit); `include` and `with_package` hand the
+flag to the configurator they create (F-C20b reverted gives `"absent"`); `execute_actions` calls the callable and then
+registers the action's introspectables in list order with the action's info, action by action, never for an
+overridden action, not for an action whose callable raised (nor anything after it), not without an introspector,
+and also for actions appended during execution; `Introspectable.register` undefers, sets the info, adds, then
+applies the recorded relate/unrelate calls in order. -/
 theorem flag_plumbing :
     includeFlag = "forwards" ∧ withPackageFlag = "forwards"
-    ∧ ctorFlag = "default=True;self.introspection = introspection"
+    ∧ ctorFlag = "default=True;stores"
     ∧ actionFlag = "drops-when-off"
-    ∧ executeLoop = "info,fetch,call,register,log"
+    ∧ executeLoop = "order-ok;error-ok;none-ok;reentrant-ok"
     ∧ registerBody = "undefer,info,add,relations" := by decide +kernel
 
 /-- **documented_categories** — the category headings of docs/narr/introspector.rst are regenerated on every run
